@@ -146,10 +146,17 @@ func (w *failOut6) Write(p []byte) (int, error) {
 }
 
 type chain6 struct {
-	id  string
-	ev  gen.EventSpec
-	lvl zerolog.Level
+	id        string
+	ev        gen.EventSpec
+	lvl       zerolog.Level
+	nestedErr bool // the event also records an error inside a nested dictionary and inside an array of objects
 }
+
+type errObj6 struct{}
+
+func (errObj6) MarshalZerologObject(e *zerolog.Event) { e.Err(err6).Str("after", "err") }
+
+var err6 = errors.New("nested-e6")
 
 func newW6(name string, console bool, delayMod int, viol func(string, string)) *cw6 {
 	return &cw6{name: name, got: map[string]int{}, expect: map[string][]byte{}, waiters: make(chan struct{}, 64), delayMod: delayMod, viol: viol, console: console}
@@ -187,6 +194,9 @@ func c06run(out *evid.Out, f *evid.Flags, run int) {
 	samplerKind := r.Intn(2) // 0: BasicSampler{3}; 1: LevelSampler -> BurstSampler that admits everything (atomics under contention)
 	st := gen.DefaultSettings()
 	st.GlobalLevel = zerolog.TraceLevel
+	// an error-stack marshaler is installed: loggers built With().Stack() (worker kind 2) add a stack member next to
+	// their errors - and only they do, also inside nested dictionaries and objects of other workers' events
+	st.StackMarshal = 2
 	restore := st.Apply()
 	defer restore()
 	oldEH := zerolog.ErrorHandler
@@ -242,7 +252,7 @@ func c06run(out *evid.Out, f *evid.Flags, run int) {
 				// the second event of a request is at error level: it releases what the first one may have left held
 				ev.Entry, ev.Level, ev.Err = "WithLevel", zerolog.ErrorLevel, nil
 			}
-			chains[w] = append(chains[w], chain6{id: fmt.Sprintf("w%d-%d", w, i), ev: ev, lvl: ev.Level})
+			chains[w] = append(chains[w], chain6{id: fmt.Sprintf("w%d-%d", w, i), ev: ev, lvl: ev.Level, nestedErr: cr.Chance(1, 3)})
 		}
 	}
 	mkDest := func(delay int) (root io.Writer, recs []*cw6) {
@@ -291,7 +301,7 @@ func c06run(out *evid.Out, f *evid.Flags, run int) {
 				Dict("cd", zerolog.Dict().Int("w", w).Str("s", "t")).Array("ca", zerolog.Arr().Int(w).Str("u")).
 				Fields(map[string]interface{}{"cf": w}).Object("co", obj6{w}).Logger()
 		case 2:
-			return base.Hook(addHook6{"hk"}).With().Timestamp().Logger()
+			return base.Hook(addHook6{"hk"}).With().Timestamp().Stack().Logger()
 		}
 		return base.With().Int("worker", w).Logger().Hook(addHook6{"h2"}).Level(zerolog.InfoLevel)
 	}
@@ -308,6 +318,9 @@ func c06run(out *evid.Out, f *evid.Flags, run int) {
 		e := gen.StartEvent(l, &c.ev).Str(idKey, c.id)
 		for _, op := range c.ev.Ops {
 			e = x.ApplyEvent(e, op)
+		}
+		if c.nestedErr {
+			e = e.Dict("nd", zerolog.Dict().Err(err6).Str("z", "y")).Array("na", zerolog.Arr().Object(errObj6{}).Err(err6)).Object("no", errObj6{})
 		}
 		gen.Finish(e, &c.ev)
 	}
